@@ -320,8 +320,15 @@ def gen_block(rng, o, depth, in_quote, prev):
         return N('hr', s=rng.choice(['***', '---', '___', '* * *', '- - -', '_____']), indent=rng.randint(0, 3))
     if r < 0.54:
         ch = rng.choice('`~')
-        return N('fence', ch=ch, n=rng.randint(3, 5), info=rng.choice(['', '', 'py', 'sh x=1']), indent=rng.randint(0, 3),
-                 lines=[rng.choice(['x = 1', '', '  indented', '# not a heading', '> not a quote', '- not a list', '*a*', '    four', 'ü'])
+        n = rng.randint(3, 5)
+        f = ch * n
+        other = '~' if ch == '`' else '`'
+        # lines that begin like a fence and are CONTENT by the specification (4.5: a closing fence is of the opening fence's
+        # character, at least as long, and followed only by spaces): fence + text, a shorter run, the other character
+        fencelike = [f + 'abc', f + ' x', ch * (n - 1), other * n, f + other * 3, ch * (n + 1) + '.']
+        return N('fence', ch=ch, n=n, info=rng.choice(['', '', 'py', 'sh x=1']), indent=rng.randint(0, 3),
+                 lines=[rng.choice(['x = 1', '', '  indented', '# not a heading', '> not a quote', '- not a list', '*a*', '    four', 'ü']
+                                   + (fencelike if rng.random() < 0.3 else []))
                         for _ in range(rng.randint(0, 4))])
     if r < 0.58:
         return N('icode', lines=[rng.choice(['code line', 'x = 1', '  more', '*not em*']) for _ in range(rng.randint(1, 3))])
